@@ -113,6 +113,19 @@ func randUniprotDoc(r *rand.Rand, n int, small bool) ([]upEntry, string) {
 			sl = 1 + r.Intn(25)
 		}
 		e.Seq = randString(r, "ACDEFGHIKLMNPQRSTVWY", sl)
+		if r.Intn(8) == 0 && sl > 12 {
+			// sequence text laid out over several indented lines: the text of the element, verbatim
+			var wrapped strings.Builder
+			wd := 10 * (1 + r.Intn(6))
+			for i := 0; i < sl; i += wd {
+				end := i + wd
+				if end > sl {
+					end = sl
+				}
+				wrapped.WriteString("\n    " + e.Seq[i:end])
+			}
+			e.Seq = wrapped.String() + "\n  "
+		}
 		es = append(es, e)
 		fmt.Fprintf(&sb, "<entry dataset=\"%s\" created=\"%s\" modified=\"%s\" version=\"%d\"", []string{"Swiss-Prot", "TrEMBL"}[r.Intn(2)], upDate(r), upDate(r), 1+r.Intn(200))
 		if r.Intn(2) == 0 {
